@@ -268,7 +268,7 @@ func (g *qgen) selectionSetIn(def *ast.Definition, depth int, pathKeys []string,
 		key := f.Name
 		alias := ""
 		if g.o.aliases && g.p(0.2) {
-			alias = []string{"x", "y", "al", "name", "id2"}[g.r.Intn(5)]
+			alias = []string{"x", "y", "al", "name", "id2", "id"}[g.r.Intn(6)]
 			if g.o.recurAlias && len(pathKeys) > 0 && g.p(0.5) {
 				alias = pathKeys[g.r.Intn(len(pathKeys))]
 			}
